@@ -820,13 +820,16 @@ func dcsPassthrough(r rune, p *Parser) stateFn {
 // that enabled me to derive this state diagram have been as subtle as
 // that.
 func escape(r rune, p *Parser) stateFn {
+	if in(r, 0x00, 0x17) || r == 0x19 || in(r, 0x1C, 0x1F) {
+		// A C0 control is executed without leaving the escape state: when
+		// this ESC ended a control string, the ST is still to be ignored
+		p.execute(r)
+		return escape
+	}
 	defer func() {
 		p.ignoreST = false
 	}()
 	switch {
-	case in(r, 0x00, 0x17), r == 0x19, in(r, 0x1C, 0x1F):
-		p.execute(r)
-		return escape
 	case in(r, 0x20, 0x2F):
 		p.collect(r)
 		return escapeIntermediate
